@@ -12,6 +12,7 @@ from __future__ import annotations
 
 import ast
 import pickletools
+import struct
 from typing import Dict, List, Optional, Set, Tuple
 
 from ..minieval import _MISSING, Evaluator, PyRaise, Record, Unsupported
@@ -668,12 +669,214 @@ def check_text_escape(repo: Repo, rep: Report):
             rep.bad("C15.text-escape", uc.qualname, f"mis-escapes:{cname}", f"Unicode({text!r}) encodes its argument as {out!r}: {why}. The text handed to the helper silently arrives as a different value", eb.file, eb.line)
 
 
+# ------------------------------------------------------------------ value-level agreement by interpretation (sa/objeval)
+def _big(n):
+    return 1 << n
+
+
+INT_REPS = [0, 1, -1, 127, 128, -128, -129, 255, 256, 257, 65535, 65536, 65537, _big(31) - 1, _big(31), _big(31) + 1, -_big(31), -_big(31) - 1, _big(32) - 1, _big(32), _big(63) - 1, _big(63), _big(63) + 1, -_big(63), -_big(63) - 1, _big(64), _big(100), -_big(100)]
+FLOAT_REPS = [0.0, -0.0, 1.5, -2.25, 1e300, 5e-324, float("inf"), float("-inf"), float("nan"), 3.0]
+STR_REPS = ["", "a", "123", "-5", "Az09 ~", "it's", 'say "hi"', "a\\b", "\\u0041", "a\nb", "a\rb", "\x00", "\x1a\x7f", "\x80\xe9\xff", "\u0100\u20ac", "\U0001f600", "x" * 255, "x" * 256, "\xe9" * 127, "\xe9" * 128, "\u20ac" * 85, "\u20ac" * 86]
+BYTES_REPS = [b"", b"a", b"123", b"\x00\xff", b"'", b"\n", b"\\", b"x" * 255, b"x" * 256]
+OTHER_REPS = [None, (1,), [1], {"a": 1}, 1 + 2j, bytearray(b"ab")]
+
+
+def _kind(v) -> str:
+    return "bool" if isinstance(v, bool) else type(v).__name__
+
+
+def _same(a, b) -> bool:
+    if type(a) is not type(b):
+        return False
+    if isinstance(a, float):
+        return struct.pack("<d", a) == struct.pack("<d", b)
+    return a == b
+
+
+def _label(v) -> str:
+    """A stable class label for a representative (keys must not contain the value itself when it is huge)."""
+    if isinstance(v, bool):
+        return f"bool:{v}"
+    if isinstance(v, int):
+        if abs(v) < 70000:
+            return f"int:{v}"
+        bl = v.bit_length()
+        exact = {(_big(n) + d): f"2^{n}{d:+d}" if d else f"2^{n}" for n in (31, 32, 63, 64, 100) for d in (-1, 0, 1)}
+        return "int:" + ("-" if v < 0 else "") + exact.get(abs(v), f"~2^{bl}")
+    if isinstance(v, float):
+        return f"float:{v!r}"
+    if isinstance(v, (str, bytes)):
+        t = type(v).__name__
+        if len(v) > 12:
+            return f"{t}:{len(v)}x{v[:1]!r}"
+        return f"{t}:{v!r}"
+    return f"{_kind(v)}"
+
+
+def make_objeval(repo: Repo):
+    from ..objeval import ObjEval
+
+    oe = ObjEval(repo)
+    reg = sorted(constant_registry(repo), key=lambda t: t[0].order)
+    oe.special_attrs[(CO, "ConstantOpcodePriorities")] = lambda: {oe.ref(c): p for c, p in reg}
+    return oe
+
+
+def _disassemble(data: bytes):
+    """The standard disassembler's reading of `data` followed by STOP: [(opcode name, argument)] or an error text."""
+    import io
+
+    try:
+        ops = [(o.name, a) for o, a, _ in pickletools.genops(io.BytesIO(data + b"."))]
+    except Exception as ex:  # the specification side refusing the bytes
+        return None, f"{type(ex).__name__}: {ex}"
+    if not ops or ops[-1][0] != "STOP":
+        return None, "no STOP where it was appended"
+    return ops[:-1], None
+
+
+def check_round_trip(repo: Repo, rep: Report, tier: str):
+    """First half of the property, decided per representative of the property's own value classes: ConstantOpcode.new(v)
+    -> .encode() interpreted from the source (sa/objeval), the bytes read by pickletools (the reader's specification):
+    exactly one opcode, carrying a value of the same kind and equal to v - or the build refused."""
+    from ..objeval import Instance
+
+    oe = make_objeval(repo)
+    cref = oe.ref(repo.cls(CO))
+    reps = INT_REPS + [True, False] + FLOAT_REPS + STR_REPS + BYTES_REPS + OTHER_REPS
+    if tier == "thorough":
+        reps += [_big(n) + d for n in (7, 8, 15, 16, 24, 40, 56, 127, 2039, 2040) for d in (-1, 0, 1)] + [-(_big(n) + d) for n in (7, 8, 15, 16, 24, 40, 56, 127) for d in (-1, 0, 1)]
+        reps += ["x" * 65535, "x" * 65536, "\xe9" * 32768, b"x" * 65536, "\ud800"]
+    n_ok = n_ref = 0
+    for v in reps:
+        lab = _label(v)
+        try:
+            op = cref.sa_attr("new")(v)
+            if not isinstance(op, Instance):
+                raise AnalysisError(f"ConstantOpcode.new({lab}) evaluated to {op!r}")
+            data = op.sa_attr("encode")()
+        except PyRaise as pe:
+            n_ref += 1
+            rep.ok("C15.round-trip", CO + ".new", f"[{lab}] refused when the pickle is built ({pe.name})", "", nontrivial=False)
+            continue
+        except Unsupported as e:
+            raise AnalysisError(f"C15.round-trip: cannot interpret ConstantOpcode.new/encode for {lab}: {e}")
+        q = op.c.qualname
+        where = f"{op.c.module.relpath}:{op.c.node.lineno}"
+        if not isinstance(data, bytes):
+            raise AnalysisError(f"{q}.encode evaluated to a {type(data).__name__}")
+        ops, err = _disassemble(data)
+        if ops is None or len(ops) != 1:
+            rep.bad("C15.round-trip", q, f"unreadable:{_kind(v)}", f"ConstantOpcode.new({lab}) picks {op.c.name}, whose bytes {data[:40]!r} the standard disassembler reads as {err or ops!r}", op.c.module.relpath, op.c.node.lineno)
+            continue
+        name, got = ops[0]
+        if _same(got, v):
+            n_ok += 1
+            rep.ok("C15.round-trip", q, f"[{lab}] -> {name}, read back as the same {_kind(v)}", where)
+        elif type(got) is not type(v):
+            rep.bad("C15.round-trip", q, f"{_kind(v)}-arrives-as-{_kind(got)}", f"ConstantOpcode.new({lab}) picks {op.c.name} ({name}): the unpickler delivers {got!r}, a {_kind(got)}, not the {_kind(v)} handed in", op.c.module.relpath, op.c.node.lineno)
+        else:
+            rep.bad("C15.round-trip", q, f"value-changed:{_kind(v)}", f"ConstantOpcode.new({lab}) picks {op.c.name} ({name}): the unpickler delivers {got!r}", op.c.module.relpath, op.c.node.lineno)
+    rep.extra["round_trip_representatives"] = len(reps)
+    if n_ok < 40 and not any(f.rule == "C15.round-trip" for f in rep.findings):
+        raise AnalysisError(f"only {n_ok} representatives round-tripped (about 70 on the pinned tree): the interpreter lost the encoders")
+
+
+_DESC_REPS = {
+    None: [()],
+    "uint1": [0, 0xA1, 255, 256, -1], "uint2": [0, 0xA1B2, 65535, 65536, -1], "uint4": [0, 0xA1B2C3D4, _big(32) - 1, _big(32), -1],
+    "int4": [0, 1, -1, 0x5E4D3C2C, -0x5E4D3C2C, _big(31) - 1, -_big(31), _big(31)], "uint8": [0, 0xA1B2C3D4E5F60718, _big(64) - 1, _big(64), -1],
+    "long1": [0, 1, -1, 127, 128, -128, -129, 255, 256, -256, 65535, _big(63), -_big(63), _big(64) - 1, _big(2039) - 1, _big(2039)],
+    "long4": [0, 1, -1, 127, 128, -128, -129, 255, 256, -256, 65535, _big(63), -_big(63), _big(64) - 1, _big(2039)],
+    "decimalnl_short": [0, 1, -1, 255, _big(40), -_big(40)], "decimalnl_long": [0, 1, -1, 255, _big(100), -_big(100)],
+    "float8": [0.0, -0.0, 1.5, 1e300, float("inf")], "floatnl": [0.0, 1.5, -2.25],
+    "stringnl": ["", "abc", "it's", 'say "hi"', "a\\b", "a\nb", "\xe9"], "unicodestringnl": ["", "abc", "a\nb", "a\\b", "\\u0041", "\xe9", "\U0001f600"],
+    "string1": ["", "abc", "it's", "\xe9\xff", "x" * 255, "x" * 256, "\u20ac"], "string4": ["", "abc", "it's", "\xe9\xff", "x" * 300, "\u20ac"],
+    "bytes1": [b"", b"abc", b"\x00\xff", b"x" * 255, b"x" * 256], "bytes4": [b"", b"abc", b"\x00\xff", b"x" * 300], "bytes8": [b"", b"abc", b"x" * 300], "bytearray8": [b"", b"abc", bytearray(b"abc")],
+    "unicodestring1": ["", "abc", "\xe9", "\U0001f600", "x" * 255, "x" * 256, "\xe9" * 128], "unicodestring4": ["", "abc", "\xe9", "\U0001f600", "x" * 300], "unicodestring8": ["", "abc", "\xe9", "x" * 300],
+    "stringnl_noescape": ["abc", "1"], "stringnl_noescape_pair": ["mod attr", "os system"],
+}
+
+
+def _arg_matches(constructed, got) -> bool:
+    if isinstance(constructed, float) and isinstance(got, float):
+        return struct.pack("<d", constructed) == struct.pack("<d", got)
+    if isinstance(constructed, (bytes, bytearray)) and isinstance(got, str):
+        return got.encode("utf-8", "surrogatepass") == bytes(constructed)
+    if isinstance(constructed, (bytes, bytearray)) and isinstance(got, (bytes, bytearray)):
+        return bytes(constructed) == bytes(got)
+    if isinstance(constructed, bool) or isinstance(got, bool):
+        return constructed == got
+    if type(constructed) is not type(got):
+        return False
+    return constructed == got
+
+
+def check_wire_values(repo: Repo, rep: Report, tier: str):
+    """Second half, value level: every registered opcode class, constructed directly with representatives of what its
+    descriptor carries, either encodes (interpreted) to bytes pickletools reads back as that opcode with that argument, or
+    refuses.  Also tried with the UTF-8 bytes of text representatives (what the validators store)."""
+    from ..objeval import Instance
+
+    oe = make_objeval(repo)
+    ops, _ = opcode_registry(repo)
+    n_cls = n_enc = 0
+    for oc in ops:
+        c = oc.cls
+        n_cls += 1
+        arg = oc.info.arg.name if oc.info.arg else None
+        if arg not in _DESC_REPS:
+            raise AnalysisError(f"argument descriptor {arg} has no representatives")
+        reps = list(_DESC_REPS[arg])
+        if arg and arg.startswith("unicodestring"):
+            reps += [r.encode("utf-8") for r in _DESC_REPS[arg] if isinstance(r, str)]
+        bad_seen = set()
+        encoded = refused = 0
+        for r in reps:
+            lab = "no argument" if r == () else _label(r)
+            try:
+                inst = oe.ref(c)(*(() if r == () else (r,)))
+                data = inst.sa_attr("encode")()
+            except PyRaise:
+                refused += 1
+                continue
+            except Unsupported as e:
+                raise AnalysisError(f"C15.wire-values: cannot interpret {c.qualname}({lab}).encode(): {e}")
+            if not isinstance(data, bytes):
+                raise AnalysisError(f"{c.qualname}.encode evaluated to a {type(data).__name__}")
+            encoded += 1
+            got, err = _disassemble(data) if oc.opname != "STOP" else ([("STOP", None)] if data == b"." else [("?", data)], None)
+            why = None
+            if got is None:
+                why = f"the disassembler rejects them ({err})"
+            elif len(got) != 1:
+                why = f"they read as {len(got)} opcodes: {[g[0] for g in got][:4]}"
+            elif got[0][0] != oc.opname:
+                why = f"they read as {got[0][0]}"
+            elif r != () and not _arg_matches(r, got[0][1]):
+                why = f"the argument reads back as {got[0][1]!r:.60}"
+            elif r == () and got[0][1] is not None:
+                why = f"an argument {got[0][1]!r:.40} appears"
+            if why:
+                kindkey = _kind(r) if r != () else "none"
+                if kindkey not in bad_seen:
+                    bad_seen.add(kindkey)
+                    rep.bad("C15.wire-values", c.qualname, f"misreads:{oc.opname}:{kindkey}", f"{c.name}({lab}).encode() = {data[:40]!r}: {why}. A constructible opcode object whose bytes do not disassemble back to itself", c.module.relpath, c.node.lineno)
+        if encoded:
+            n_enc += 1
+        if not bad_seen:
+            rep.ok("C15.wire-values", c.qualname, f"{oc.opname}: {encoded} representative(s) encode and read back as themselves, {refused} refused", f"{c.module.relpath}:{c.node.lineno}", nontrivial=bool(encoded))
+    rep.extra["opcode_classes_interpreted"] = n_cls
+    if n_enc < 25 and not any(f.rule == "C15.wire-values" for f in rep.findings):
+        raise AnalysisError(f"only {n_enc} opcode classes produced bytes under interpretation (about 45 on the pinned tree)")
+
+
 def check_argument_path(repo: Repo, rep: Report):
     """Who-may-construct: library code that builds a constant opcode directly (not through ConstantOpcode.new, whose
     winners C15.capture vets) must not pick a class whose encoder this very run found not to round-trip."""
     defective: Dict[str, str] = {}
     for f in rep.findings:
-        if f.rule in ("C15.wire-format", "C15.length-units", "C15.capture"):
+        if f.rule in ("C15.wire-format", "C15.length-units", "C15.capture", "C15.wire-values", "C15.round-trip"):
             defective.setdefault(f.construct.split(".")[-1] if f.construct.split(".")[-1][:1].isupper() else f.construct.split(".")[-2], f.rule)
         if f.rule == "C15.text-escape":
             defective.setdefault("Unicode", f.rule)
@@ -716,14 +919,16 @@ def run(rep: Report, tier: str):
     )
     rep.rule("C15.capture", "every class that can win ConstantOpcode.new for an input kind decodes to that kind", 5)
     rep.rule("C15.range", "admitted integer ranges fit the struct format", 4)
-    rep.rule("C15.wire-format", "encoder shape agrees with the pickletools argument descriptor, or the class refuses", 55)
     rep.rule("C15.length-units", "length-prefixed constant classes bound the byte length of the encoded body in validate", 6)
     rep.rule("C15.text-escape", "the UNICODE text encoder writes, for every character class of the raw-unicode-escape reader, bytes that read back as the text (or refuses)", 12)
+    rep.rule("C15.round-trip", "ConstantOpcode.new(v).encode(), interpreted, is read by the standard disassembler as one opcode carrying an equal value of the same kind - or the build refuses", 40)
+    rep.rule("C15.wire-values", "every opcode class constructed directly encodes (interpreted) to bytes that disassemble back to that opcode and argument, or refuses", 25)
     rep.rule("C15.argument-path", "no helper constructs directly a constant opcode whose encoder does not round-trip", 2)
     rep.assume("pickletools argument descriptors and stack_after kinds are the specification of what the standard disassembler/unpickler reads")
     check_capture(repo, rep)
     check_range(repo, rep)
-    check_wire(repo, rep)
     check_length_units(repo, rep)
     check_text_escape(repo, rep)
+    check_round_trip(repo, rep, tier)
+    check_wire_values(repo, rep, tier)
     check_argument_path(repo, rep)
